@@ -43,6 +43,7 @@ def run(ck, fb):
     r09n(ck, fb)
     r09o(ck, fb)
     r09q(ck, fb)
+    r09r(ck, fb)
 
 
 PAIR_EXCEPTIONS = {
@@ -818,3 +819,22 @@ def r09q(ck, fb, R='R09q'):
                            'the description: a publish with an empty description keeps the description of an older publish' % (f, f, cfg.fmt_desc(d)[:60]),
                            'the entry\'s %s' % f)
     ck.floor(R, 'SetConfigParam fields judged', n, 7)
+
+
+def r09r(ck, fb, R='R09r'):
+    ck.rule(R, '"the change history of a key ... newest first, bounded to the last 100": the bound keeps the NEWEST entries, and it is applied where a '
+               'full value is stored (inner_set_config, R09l). The decoder of a stored value (From<ConfigValueDO> for ConfigValue) hands the whole '
+               'history list on, oldest first as it was written: no filter / skip / take / step_by / truncate between `histories` of the record and '
+               '`histories` of the value. A take(100) there keeps the OLDEST 100 of a longer list (an import file, a snapshot of another version): '
+               'GET returns v130 while the history ends at v100, and the trim that would have kept the newest never sees more than 100 items')
+    DROP = re.compile(r'Iterator::(filter|filter_map|skip|skip_while|take|take_while|step_by)$|Iterator>::(filter|filter_map|skip|skip_while|take|take_while|step_by)$|Vec::<T, A>::(truncate|drain|retain|split_off)$')
+    bs = fb.impls(r'convert::From$', r'config::core::ConfigValue$', r'ConfigValueDO', 'from')
+    ck.floor(R, 'decoder bodies From<ConfigValueDO> for ConfigValue', len(bs), 1)
+    for b in bs:
+        ck.analysed(b)
+        t = Taint(b, place_src=field_place_src('histories'))
+        bad = [s0 for s0 in b.sites if DROP.search(s0.resolved or s0.callee or '') and s0.args and t.op_tainted(s0.args[0])]
+        ck.require(not bad, R, 'From<ConfigValueDO>:history-handed-on-completely', bad[0].where() if bad else b.where(),
+                   'the decoder of a stored config value shortens the history list (%s): the list is oldest first, so the newest entries of a list longer '
+                   'than the bound are dropped - the history no longer ends with the content that is served' % ((bad[0].resolved or bad[0].callee).split('::')[-1] if bad else ''),
+                   'no shortening adaptor')
